@@ -13,12 +13,18 @@ Writer/reader AGREEMENT rules decided from the syntax trees of `_convert_to_json
       flag is propagated downwards
   R6  call strings: the separators / missing markers `Call.__str__` emits are the ones `_tcall._convert_from_json` tests
   R7  ndarray: the flattening order of the writer equals the order the reader rebuilds with; shape and data travel
+  R8  purity: the result of every _convert_*json* method depends only on (parameters of the type, the converted value) - no converter
+      reads back state that outlives the call (class attributes, module globals, mutable defaults, instance attributes) unless it is
+      a memo whose key contains every input of the remembered value (e.g. self.reference_genome for a remembered Locus)
+  R9  component coverage: on every feasible path of a container converter the converter of each component (element, key, value,
+      field, point) is applied - or the converter that is skipped is the identity for every class the path's type guards admit
+      (decided from that class's own _convert_to_json / _convert_from_json; float32/float64 are not: non-finite values travel as strings)
 Does not decide: equality of the rebuilt values (e.g. numeric precision of float32 text).
 """
 from __future__ import annotations
 
 import ast
-from typing import Dict, List, Optional, Set, Tuple
+from typing import Dict, List, Optional, Sequence, Set, Tuple
 
 from engines import pyfacts as pf
 from engines import wiresig as W
@@ -114,10 +120,16 @@ def _r1(ctx: Ctx, m: pf.Module, classes: Dict[str, ast.ClassDef]):
 
 
 def _returned_expr(fn: pf.FuncDef) -> List[ast.expr]:
+    """Expressions a function may return: `return e` with a returned local followed to its defining expression(s)."""
     outs = []
     for n in pf.walk_shallow(fn):
         if isinstance(n, ast.Return) and n.value is not None:
-            outs.append(pf.resolve_expr(fn, n.value))
+            r = pf.resolve_expr(fn, n.value)
+            if isinstance(r, ast.Name) and r.id not in W.param_names(fn):
+                ds = [d for d in pf.assignments(fn).get(r.id, []) if isinstance(d, ast.expr)]
+                outs.extend(ds if ds else [r])
+            else:
+                outs.append(r)
     return outs
 
 
@@ -259,9 +271,10 @@ def _r2_r3(ctx: Ctx, m: pf.Module, classes: Dict[str, ast.ClassDef]) -> int:
             src = wtab[k][1]
             if not (isinstance(src, ast.Attribute) and isinstance(src.value, ast.Name) and src.value.id == xw):
                 raise AnalysisError(f'{cname}.{TO}: value of key {k!r} is `{pf.nsrc(src)}`, not an attribute of the converted object')
-            arg_nodes = [node for _, node in ruses[k]]
-            ctx.need(len(arg_nodes) == 1, f'{cname}.{FROM}: key {k!r} is read {len(arg_nodes)} times')
-            prm = vc.param_of_arg(ctor, arg_nodes[0]) if any(arg_nodes[0] is a for a in list(ctor.args) + [kw.value for kw in ctor.keywords]) else None
+            ctor_args = list(ctor.args) + [kw.value for kw in ctor.keywords]
+            arg_nodes = [node for _, node in ruses[k] if any(node is a for a in ctor_args)]  # other reads of the key (e.g. a memo key) are not roles
+            ctx.need(len(arg_nodes) == 1, f'{cname}.{FROM}: key {k!r} is passed to the {vc.name} constructor {len(arg_nodes)} times')
+            prm = vc.param_of_arg(ctor, arg_nodes[0])
             ctx.need(prm is not None, f'{cname}.{FROM}: key {k!r} is not passed directly to the {vc.name} constructor')
             a_w = vc.attr_for_prop(src.attr)
             a_r = vc.attr_for_param(prm)
@@ -545,6 +558,327 @@ def _r7(ctx: Ctx, m: pf.Module, classes: Dict[str, ast.ClassDef]):
               m.path, ms[FROM].lineno, detail={'order': worder})
 
 
+# --------------------------------------------------------------------------------------
+# R8 purity / memo keys
+# --------------------------------------------------------------------------------------
+
+_PURITY_CONTROL = """
+class HailType(object):
+    pass
+class tprobe(HailType):
+    _seen = {}
+    def _convert_from_json(self, x, _should_freeze=False):
+        k = (x['a'],)
+        v = tprobe._seen.get(k)
+        if v is None:
+            v = (x['a'], self.param)
+            tprobe._seen[k] = v
+        return v
+"""
+
+
+def _r8(ctx: Ctx, m: pf.Module, classes: Dict[str, ast.ClassDef]):
+    is_codec = lambda n: n in (TO, FROM, TO_NA, FROM_NA, '_to_json', '_from_json')
+    findings, n_methods = W.codec_state(m, classes, is_codec)
+    ctx.need(n_methods >= 30, f'expected >= 30 JSON converter methods, found {n_methods}')
+    flagged = set()
+    undecided = []
+    for f in findings:
+        if f.kind == 'violation':
+            ctx.bad('R8', f.construct, f.message, m.path, f.line, f.detail)
+            flagged.add(f.construct.split('::')[1])
+        elif f.kind == 'ok':
+            ctx.ok('R8', f.construct, f.message)
+        else:
+            undecided.append(f.message)
+    for cname, c in list(classes.items()) + [('HailType', m.cls('HailType'))]:
+        for nm in W.methods(c):
+            if is_codec(nm) and f'{cname}.{nm}' not in flagged:
+                ctx.ok('R8', f'{F}::{cname}.{nm}::pure', 'no state that outlives the call flows into the result')
+    # positive control: the same analysis must flag a synthetic decoder whose class-level memo key omits a type parameter
+    cm = pf.Module('<control>', '<control>', _PURITY_CONTROL, ast.parse(_PURITY_CONTROL))
+    cf, _ = W.codec_state(cm, W.hail_type_classes(cm), is_codec)
+    ctx.need(any(f.kind == 'violation' and 'self.param' in f.message for f in cf), 'internal: purity analysis does not flag its positive control')
+    ctx.ok('R8', 'positive control: class-level memo keyed without a type parameter', 'flagged', nontrivial=False)
+    ctx.need(not undecided, undecided[0] if undecided else '')
+
+
+# --------------------------------------------------------------------------------------
+# R9 component coverage under type guards
+# --------------------------------------------------------------------------------------
+
+FIELD_TABLES = ('self.items()', 'self._field_types.items()', 'self.types', 'self._types', 'self._field_types.values()', 'self.values()')
+
+
+def _role(fn: pf.FuncDef, recv: ast.AST) -> str:
+    """Normalised component role of a converter receiver / guard subject: element_type, key_type, value_type, point_type, t, fields."""
+    if isinstance(recv, ast.Attribute) and isinstance(recv.value, ast.Name) and recv.value.id == 'self':
+        return recv.attr.lstrip('_')
+    if isinstance(recv, ast.Subscript) and pf.nsrc(recv.value) in ('self.types', 'self._types', 'self._field_types', 'self'):
+        return 'fields'
+    if isinstance(recv, ast.Name):
+        for n in ast.walk(fn):
+            tgt = it = None
+            if isinstance(n, (ast.For, ast.comprehension)):
+                tgt, it = n.target, n.iter
+            if tgt is None:
+                continue
+            if isinstance(it, ast.Call) and pf.dotted(it.func) == 'enumerate' and it.args and isinstance(tgt, ast.Tuple) and len(tgt.elts) == 2:
+                tgt, it = tgt.elts[1], it.args[0]
+            if pf.nsrc(it) in FIELD_TABLES and any(isinstance(x, ast.Name) and x.id == recv.id for x in ast.walk(tgt)):
+                return 'fields'
+        d = pf.single_def(fn, recv.id)
+        if isinstance(d, ast.expr) and not isinstance(d, ast.Name):
+            return _role(fn, d)
+    return pf.nsrc(recv)
+
+
+class _Path:
+    def __init__(self, conds=(), roles=(), end='fall'):
+        self.conds: Tuple[Tuple[ast.AST, bool], ...] = tuple(conds)
+        self.roles: frozenset = frozenset(roles)
+        self.end = end
+
+    def plus(self, conds=(), roles=(), end=None) -> '_Path':
+        return _Path(self.conds + tuple(conds), self.roles | frozenset(roles), end or self.end)
+
+
+def _paths(fn: pf.FuncDef, names: Tuple[str, ...]) -> List[_Path]:
+    """Feasible-by-syntax paths of a converter: branch decisions taken and the component roles whose converter (one of `names`) is applied."""
+    where = f'{F}::{fn.name}'
+
+    def is_conv(e: ast.AST) -> bool:
+        return (isinstance(e, ast.Call) and isinstance(e.func, ast.Attribute) and e.func.attr in names
+                and pf.nsrc(e.func.value) not in ('self', 'super()'))
+
+    def has_conv(e: ast.AST) -> bool:
+        return any(is_conv(x) for x in ast.walk(e))
+
+    def alts(e: Optional[ast.AST]) -> List[Tuple[tuple, frozenset]]:
+        """alternatives (conds, roles) of evaluating an expression"""
+        if e is None or not has_conv(e):
+            return [((), frozenset())]
+        if isinstance(e, ast.IfExp):
+            out = []
+            for tc, tr in alts(e.test):
+                for bc, br in alts(e.body):
+                    out.append((tc + ((e.test, True),) + bc, tr | br))
+                for oc, orr in alts(e.orelse):
+                    out.append((tc + ((e.test, False),) + oc, tr | orr))
+            return out
+        if isinstance(e, ast.BoolOp):
+            raise AnalysisError(f'{where} (line {e.lineno}): component converter inside a short-circuit expression (unrecognised idiom)')
+        if isinstance(e, (ast.ListComp, ast.SetComp, ast.GeneratorExp, ast.DictComp)):
+            if any(g.ifs for g in e.generators):
+                raise AnalysisError(f'{where} (line {e.lineno}): filtered comprehension around a component converter (unrecognised idiom)')
+        if isinstance(e, ast.Lambda):
+            raise AnalysisError(f'{where} (line {e.lineno}): component converter inside a lambda (unrecognised idiom)')
+        cur: List[Tuple[tuple, frozenset]] = [((), frozenset([_role(fn, e.func.value)]) if is_conv(e) else frozenset())]
+        for c in ast.iter_child_nodes(e):
+            if isinstance(c, ast.expr) or isinstance(c, (ast.comprehension, ast.keyword)):
+                sub = alts(c) if isinstance(c, ast.expr) else alts_node(c)
+                cur = [(a + b, ra | rb) for a, ra in cur for b, rb in sub]
+                if len(cur) > 64:
+                    raise AnalysisError(f'{where}: too many paths')
+        return cur
+
+    def alts_node(n: ast.AST) -> List[Tuple[tuple, frozenset]]:
+        cur: List[Tuple[tuple, frozenset]] = [((), frozenset())]
+        for c in ast.iter_child_nodes(n):
+            if isinstance(c, ast.expr):
+                cur = [(a + b, ra | rb) for a, ra in cur for b, rb in alts(c)]
+        return cur
+
+    def block(stmts: Sequence[ast.stmt], live: List[_Path]) -> Tuple[List[_Path], List[_Path]]:
+        """(paths falling through, paths ended)"""
+        done: List[_Path] = []
+        for st in stmts:
+            if not live:
+                break
+            if isinstance(st, (ast.FunctionDef, ast.AsyncFunctionDef, ast.ClassDef)):
+                if has_conv(st):
+                    raise AnalysisError(f'{where} (line {st.lineno}): component converter inside a nested definition (unrecognised idiom)')
+                continue
+            if isinstance(st, ast.If):
+                pre = alts(st.test)
+                nxt: List[_Path] = []
+                for p in live:
+                    for c, r in pre:
+                        q = p.plus(c, r)
+                        f1, d1 = block(st.body, [q.plus([(st.test, True)])])
+                        f2, d2 = block(st.orelse, [q.plus([(st.test, False)])])
+                        nxt += f1 + f2
+                        done += d1 + d2
+                live = nxt
+            elif isinstance(st, (ast.For, ast.AsyncFor, ast.While)):
+                head = alts(st.iter) if not isinstance(st, ast.While) else alts(st.test)
+                live = [p.plus(c, r) for p in live for c, r in head]
+                f1, d1 = block(st.body, live)
+                # early exits inside the loop body end the function; otherwise the body is taken as executed (per element)
+                live = f1
+                done += d1
+            elif isinstance(st, (ast.With, ast.AsyncWith)):
+                live, d1 = block(st.body, live)
+                done += d1
+            elif isinstance(st, ast.Try):
+                if has_conv(st):
+                    raise AnalysisError(f'{where} (line {st.lineno}): component converter inside try (unrecognised idiom)')
+            elif isinstance(st, ast.Return):
+                done += [p.plus(c, r, 'return') for p in live for c, r in alts(st.value)]
+                live = []
+            elif isinstance(st, ast.Raise):
+                done += [p.plus(end='raise') for p in live]
+                live = []
+            else:
+                for c in ast.iter_child_nodes(st):
+                    if isinstance(c, ast.expr):
+                        live = [p.plus(cc, r) for p in live for cc, r in alts(c)]
+            if len(live) + len(done) > 64:
+                raise AnalysisError(f'{where}: too many paths')
+        return live, done
+
+    live, done = block(W.body_wo_doc(fn), [_Path()])
+    return [p for p in done + [q.plus(end='return') for q in live] if p.end != 'raise']
+
+
+def _identity_conv(classes: Dict[str, ast.ClassDef], base: Dict[str, pf.FuncDef], cname: str, plain: str, na: str) -> Tuple[bool, str]:
+    """Is the effective `plain` converter of class cname the identity (and the `_na` wrapper the base None-passthrough)?"""
+    ms = W.methods(classes[cname])
+    if na in ms:
+        return False, f'{cname} overrides {na}'
+    fn = ms.get(plain)
+    owner = cname
+    if fn is None:
+        # single inheritance inside the module: walk named bases
+        seen = set()
+        stack = [pf.dotted(b) for b in classes[cname].bases]
+        while stack and fn is None:
+            b = stack.pop(0)
+            if b in seen or b is None:
+                continue
+            seen.add(b)
+            if b == 'HailType':
+                fn, owner = base.get(plain), 'HailType'
+            elif b in classes:
+                fn, owner = W.methods(classes[b]).get(plain), b
+                stack += [pf.dotted(x) for x in classes[b].bases]
+    if fn is None:
+        return False, f'{plain} of {cname} not found'
+    b = W.body_wo_doc(fn)
+    ps = W.param_names(fn)
+    if len(b) == 1 and isinstance(b[0], ast.Return) and isinstance(b[0].value, ast.Name) and len(ps) >= 2 and b[0].value.id == ps[1]:
+        return True, f'{owner}.{plain} returns its argument'
+    return False, f'{owner}.{plain} is `{pf.nsrc(b[-1])[:70]}`' if b else f'{owner}.{plain} is empty'
+
+
+def _float_tokens_note(classes: Dict[str, ast.ClassDef], cname: str) -> str:
+    ms = W.methods(classes[cname])
+    if TO in ms and any(isinstance(n, ast.Call) and pf.dotted(n.func) in ('str', 'repr') for n in ast.walk(ms[TO])):
+        return (f'{cname}.{TO} writes non-finite values as str(x) ("nan", "inf", "-inf") and only {cname}.{FROM} (`{pf.nsrc(W.body_wo_doc(ms[FROM])[-1])}`) turns them back'
+                if FROM in ms else f'{cname}.{TO} writes non-finite values as strings')
+    return ''
+
+
+def _r9(ctx: Ctx, m: pf.Module, classes: Dict[str, ast.ClassDef]):
+    T = W.TypeTables(m, classes)
+    base = W.methods(m.cls('HailType'))
+    n_inst = 0
+    for cname, c in classes.items():
+        ms = W.methods(c)
+        sides = {}
+        for meth, side in ((TO, 'w'), (TO_NA, 'w'), (FROM, 'r'), (FROM_NA, 'r')):
+            if meth in ms:
+                names = (TO, TO_NA) if side == 'w' else (FROM, FROM_NA)
+                sides[meth] = (side, _paths(ms[meth], names))
+        roles = set()
+        for meth, (side, ps) in sides.items():
+            for p in ps:
+                roles |= p.roles
+        if not roles:
+            continue
+        for meth, (side, ps) in sides.items():
+            fn = ms[meth]
+            value_param = W.param_names(fn)[1] if len(W.param_names(fn)) > 1 else None
+            plain, na = (TO, TO_NA) if side == 'w' else (FROM, FROM_NA)
+            cons = f'{F}::{cname}.{meth}::component converters applied on every path'
+            problems: List[str] = []
+            facts: List[str] = []
+            undecided: Optional[str] = None
+            line = fn.lineno
+            for p in ps:
+                for role in sorted(roles - p.roles):
+                    admitted = T.all
+                    gtxt = []
+                    vacuous = False
+                    unknown = None
+                    for test, pol in p.conds:
+                        g = T.guard(test)
+                        if g is not None:
+                            if _role(fn, g.subject) == role:
+                                admitted = admitted & (g.admitted if pol else (T.all - g.admitted))
+                                gtxt.append(('' if pol else 'not ') + pf.nsrc(test))
+                                if pol and g.dead:
+                                    facts.append(f'branch `{pf.nsrc(test)}` is dead: {g.dead}')
+                            continue
+                        t, neg = test, not pol
+                        if isinstance(t, ast.UnaryOp) and isinstance(t.op, ast.Not):
+                            t, neg = t.operand, not neg
+                        # the converted value (or one component of it) is None / empty on this path: nothing to convert
+                        if isinstance(t, ast.Compare) and len(t.ops) == 1 and isinstance(t.comparators[0], ast.Constant) and t.comparators[0].value is None:
+                            is_none = isinstance(t.ops[0], ast.Is) != neg if isinstance(t.ops[0], (ast.Is, ast.IsNot)) else None
+                            if is_none is True:
+                                vacuous = True
+                                continue
+                            if is_none is False:
+                                continue
+                        if value_param and pf.nsrc(t) in (value_param, f'len({value_param})') and neg:
+                            vacuous = True
+                            continue
+                        if value_param and pf.nsrc(t) in (f'len({value_param}) == 0', f'{value_param} == []') and not neg:
+                            vacuous = True
+                            continue
+                        if isinstance(t, ast.Name) and t.id != value_param and t.id in W.param_names(fn):
+                            continue  # a flag such as _should_freeze does not select component types
+                        unknown = test
+                    if vacuous:
+                        continue
+                    if unknown is not None:
+                        undecided = (f'{F}::{cname}.{meth} (line {unknown.lineno}): the {role} converter is skipped under `{pf.nsrc(unknown)[:80]}`, '
+                                     f'which is not a recognised test on the component type')
+                        continue
+                    if not admitted:
+                        continue
+                    offenders = []
+                    for tname in sorted(admitted):
+                        ok, why = _identity_conv(classes, base, tname, plain, na)
+                        if not ok:
+                            offenders.append((tname, why))
+                    if offenders:
+                        line = p.conds[-1][0].lineno if p.conds else fn.lineno
+                        names = [t for t, _ in offenders]
+                        ex = offenders[0]
+                        note = next((nt for nt in (_float_tokens_note(classes, t) for t in names) if nt), '')
+                        under = ' and '.join(f'`{g}`' for g in gtxt) if gtxt else 'no test on the component type at all'
+                        cex = ''
+                        floaty = [t for t in names if 'float' in t]
+                        if floaty and note:
+                            cex = (f' Counter-example: {cname}<{floaty[0].lstrip("_t")}> value [nan] -> wire ["nan"] -> read back as [\'nan\'] (a str)' if side == 'r' else
+                                   f' Counter-example: {cname}<{floaty[0].lstrip("_t")}> value [nan] is handed to json.dumps unquoted (bare NaN token, not JSON)')
+                        problems.append(f'on the path taken under {under} the {role} {"decoder" if side == "r" else "encoder"} (`{plain}`) is not applied although the other paths / the other '
+                                        f'direction apply it; the path admits component classes {sorted(admitted)} and for {names} skipping is not the identity ({ex[1]}'
+                                        + (f'; {note}' if note else '') + f').{cex}')
+            problems = list(dict.fromkeys(problems))
+            if problems:
+                ctx.bad('R9', cons, ' | '.join(problems), m.path, line)
+            else:
+                ctx.ok('R9', cons, {'roles': sorted(roles), 'paths': len(ps), 'facts': facts})
+            n_inst += 1
+            if undecided:
+                # established violations are recorded above; an unrecognised guard is an analysis error, reported after them
+                ctx.need(False, undecided)
+    ctx.need(n_inst >= 10, f'expected >= 10 container converters with component calls, found {n_inst}')
+
+
 def run(ctx: Ctx) -> None:
     ctx.level = 'other'
     ctx.explanation = ('AST-level agreement tables between the JSON writer and reader of every HailType subclass in expr/types.py (override pairing, key sets, '
@@ -557,6 +891,10 @@ def run(ctx: Ctx) -> None:
                    'set elements / dict keys are parsed frozen and the freeze flag is forwarded', 30)
     ctx.rule('R6', 'markers, prefix and separators of Call.__str__ are the ones _tcall._convert_from_json tests', 1)
     ctx.rule('R7', 'ndarray JSON: flatten order of the writer == rebuild order of the reader', 1)
+    ctx.rule('R8', 'purity: no JSON converter reads back state that outlives the call unless it is a memo keyed by every input of the remembered value '
+                   '(type parameters such as self.reference_genome included)', 30)
+    ctx.rule('R9', 'on every feasible path of a container converter each component converter is applied, or the skipped converter is the identity for every '
+                   'class the path\'s type guards admit (float32/float64 are not: nan/inf travel as strings)', 15)
     ctx.assume('float(str(x)) == x for nan/inf/-inf and str(x) of a non-finite float is one of nan, inf, -inf (CPython)')
     ctx.assume('every component position of a container (element, key, value, field, interval endpoint) may hold a missing value')
     m = pf.load(F)
@@ -564,6 +902,8 @@ def run(ctx: Ctx) -> None:
     ctx.need(len(classes) >= 20, f'expected >= 20 HailType subclasses in {F}, found {len(classes)}')
     ctx.unit('files', 3)
     ctx.unit('classes', len(classes))
+    _r8(ctx, m, classes)   # first: a history-dependent decoder is reported even when a later, shape-dependent rule declines
+    _r9(ctx, m, classes)
     _r1(ctx, m, classes)
     nt = _r2_r3(ctx, m, classes)
     ctx.need(nt >= 5, f'expected >= 5 classes with JSON object layouts (ndarray, dict, struct, locus, interval), found {nt}')
